@@ -462,10 +462,10 @@ class TLSRecordLayer(object):
         :rtype: iterable
         :returns: A generator; see above for details.
         """
-        try:
-            if self.closed:
-                raise TLSClosedConnectionError("attempt to write to closed connection")
+        if self.closed:
+            raise TLSClosedConnectionError("attempt to write to closed connection")
 
+        try:
             applicationData = ApplicationData().create(bytearray(s))
             for result in self._sendMsg(applicationData, \
                                         randomizeFirstBlock=True):
